@@ -15,10 +15,25 @@ Kernel-checked witnesses: the unrepaired `descale` produced no text for non-nega
 (`descale_unrepaired_diverges`); the repaired code still loses the last digit of some short expansions
 (`lossy_short_expansion_witness` — open finding `C14.lossy_rescaling_of_short_expansion`).
 
-Not proved (`FullDescaleInvariant`, `FullLayoutTruncates`): the loop invariant
-`|s·10^x| ≤ |input·radix^e|` (equality while no lossy division happened) and "printed = significand
-truncated to the digits kept"; both are checked by the oracle on every swept case instead
-(`within`, `exactly` in `CnlSpec.Decimal`).
+The fractional half (every signed significand type — `int64_t` for all reps of at most 63 digits — every value,
+exponent, radix 2…10, buffer length):
+* `descale_value_invariant`: `|s|·10^x ≤ |v|·radix^e`, the shortfall is at most `lossy·lossUnit/max` of the value
+  (`lossUnit = 10(radix−1)` for negative, `90` for non-negative exponents; `loss_unit_figures`), equality when no
+  lossy division happened; `descale_invariant_signed` restates it with the oracle's `Dec.within`/`Dec.exactly`;
+* `fill_denotes_truncation`, `layout_truncates`: the text of either layout reads back (independent reader) as the
+  significand truncated toward zero to the digits kept: `0 ≤ s·10^x − printed < 10^(last printed digit)`, exact
+  when nothing was cut, and nothing is cut when a complete notation fits;
+* `scaled_text_denotes`: the composition for `cnl::to_chars(scaled_integer)` — sign, never above, less than one
+  unit of the last digit plus `lossy·lossUnit/max` below, exact when `lossy = 0` and a complete notation fits;
+  `scaled_zero_denotes`; `descale_lossless_binary`: for a binary negative exponent no division is lossy when
+  `|v|·5^|e| ≤ max/10` (the expansion has at most 18 significant digits on `int64_t`); `descale_lossless_small`:
+  nor for a non-negative exponent when `|v|·radix^e ≤ max/10`.
+
+Still open (`FullDescaleInvariant`): the unsigned significand types (`uint64_t`/`unsigned __int128` reps), where
+`significand *= radix` wraps; and a static criterion for `lossy = 0` when the exponent is non-negative and the value
+exceeds `max/10` (there the claim "exact whenever the expansion has ≤ 18 digits" is *false*:
+`lossy_short_expansion_witness`), or the input radix is not 2 with a negative exponent.  Both are
+checked by the oracle on every swept case.
 -/
 namespace Cnl.C14
 open Cnl Cnl.Charconv Cnl.Spec
@@ -81,20 +96,212 @@ theorem lossy_short_expansion_witness :
 /-- an exact case: `scaled_integer<int8_t, power<-4>>` rep −99 = −6.1875 -/
 theorem descale_exact_witness : descale i64 (-99) (-4) 2 = .ok ⟨-61875, -4, 0⟩ := by decide +kernel
 
-/-- full statement of the rescaling invariant (not proved) -/
-def FullDescaleInvariant : Prop :=
-  ∀ (S : IntTy) (input e : Int) (radix : Nat) (d : Desc), 8 ≤ S.bits → 2 ≤ radix → radix ≤ 10 → S.InRange input →
+/-! ## the fractional half -/
+
+/-- **value invariant of `descale`** (target 1).  For every signed significand type of at least 8 bits, every
+input in range, every input exponent and input radix 2…10: with `num/den = |input|·radix^e` and the returned
+`s = |d.sig|`, `x = d.exp`
+* the sign is kept and `s ≠ 0`;
+* `s·10^x ≤ num/den` (written `s·10^x⁺·den ≤ num·10^x⁻`);
+* `num/den − s·10^x ≤ (num/den)·lossy·lossUnit/max`: every lossy division (one that happens out of headroom,
+  `|sig| > max/10`, with a non-zero remainder) loses less than one unit of the new significand, i.e. at most
+  `lossUnit/max` of the value, `lossUnit = 10(radix−1)` for negative and `90` for non-negative exponents;
+* equality when no lossy division happened;
+* at most `|e| + 1` divisions are lossy, at most `|e|` for a negative exponent — so the whole allowance is at most
+  `(|e|+1)·90/max` of the value, which is what the oracle of the driver grants (`(|e|+1)·100/max`). -/
+theorem descale_value_invariant (S : IntTy) (hs : S.signed = true) (h8 : 8 ≤ S.bits) (input e : Int) (R : Nat)
+    (hR2 : 2 ≤ R) (hR : R ≤ 10) (hr : S.InRange input) (h0 : input ≠ 0) :
+    ∃ d, descale S input e R = .ok d ∧ (input < 0 ↔ d.sig < 0) ∧ d.sig ≠ 0 ∧
+      d.sig.natAbs * 10 ^ d.exp.toNat * (exactFrac input.natAbs R e).2 ≤
+        (exactFrac input.natAbs R e).1 * 10 ^ (-d.exp).toNat ∧
+      (exactFrac input.natAbs R e).1 * 10 ^ (-d.exp).toNat * S.max.toNat ≤
+        d.sig.natAbs * 10 ^ d.exp.toNat * (exactFrac input.natAbs R e).2 * S.max.toNat +
+        (exactFrac input.natAbs R e).1 * 10 ^ (-d.exp).toNat * (d.lossy * lossUnit R e) ∧
+      (d.lossy = 0 → d.sig.natAbs * 10 ^ d.exp.toNat * (exactFrac input.natAbs R e).2 =
+        (exactFrac input.natAbs R e).1 * 10 ^ (-d.exp).toNat) ∧
+      d.lossy ≤ e.natAbs + 1 ∧ (e < 0 → d.lossy ≤ e.natAbs) := by
+  obtain ⟨d, hd, hsg, hne⟩ := descale_keeps_sign S hs h8 input e R hR2 hR hr h0
+  obtain ⟨h1, h2⟩ := descale_value S hs h8 input e R hR2 hR hr h0 d hd
+  have hM : 0 < S.max.toNat := by have := max_ge_127 S hs h8; omega
+  refine ⟨d, hd, hsg, hne, h1, h2, ?_, descale_lossy_le_succ S hs h8 input e R hR2 hR hr h0 d hd,
+    fun he => descale_lossy_le S hs h8 input e R hR2 hR hr h0 he d hd⟩
+  intro hl
+  rw [hl] at h2
+  simp only [Nat.zero_mul, Nat.mul_zero, Nat.add_zero] at h2
+  have := Nat.le_of_mul_le_mul_right h2 hM
+  omega
+
+example : i64.signed = true ∧ 8 ≤ i64.bits ∧ i64.InRange (-99) ∧ (-99 : Int) ≠ 0 := by decide
+
+/-- the allowance in figures: for a binary negative exponent a lossy halving costs at most `10/max` of the value,
+which for the 64-bit significand is below `2^-59`; for non-negative exponents `90/max < 2^-56` -/
+theorem loss_unit_figures :
+    (∀ e : Int, e < 0 → lossUnit 2 e = 10) ∧ (∀ (R : Nat) (e : Int), R ≤ 10 → lossUnit R e ≤ 90) ∧
+    10 * 2 ^ 59 < i64.max.toNat ∧ 90 * 2 ^ 56 < i64.max.toNat := by
+  refine ⟨?_, fun R e h => lossUnit_le R e h, by decide, by decide⟩
+  intro e he; simp [lossUnit, he]
+
+/-- the rescaling invariant in the oracle's terms (`Dec.within`, `Dec.exactly` of `CnlSpec.Decimal`), for one
+significand type -/
+def DescaleInvariant (S : IntTy) : Prop :=
+  ∀ (input e : Int) (radix : Nat) (d : Desc), 2 ≤ radix → radix ≤ 10 → S.InRange input →
     descale S input e radix = .ok d →
     (0 ≤ input ↔ 0 ≤ d.sig) ∧
-    (let (num, den) := exactFrac input.natAbs radix e
-     (⟨false, d.sig.natAbs, d.exp⟩ : Dec).within num den (d.lossy * 100) S.max.toNat = true ∧
-     (d.lossy = 0 → (⟨false, d.sig.natAbs, d.exp⟩ : Dec).exactly num den = true))
+    (⟨false, d.sig.natAbs, d.exp⟩ : Dec).within (exactFrac input.natAbs radix e).1 (exactFrac input.natAbs radix e).2
+      (d.lossy * 100) S.max.toNat = true ∧
+    (d.lossy = 0 → (⟨false, d.sig.natAbs, d.exp⟩ : Dec).exactly
+      (exactFrac input.natAbs radix e).1 (exactFrac input.natAbs radix e).2 = true)
 
-/-- full statement for the layouts (not proved): the text reads back as the significand truncated to the
-digits kept -/
-def FullLayoutTruncates : Prop :=
-  ∀ (b : Buf) (sig : Nat) (x : Int) (r : TCR), 0 < sig → b.WF →
-    toCharsPositive b 0 (natDigits 10 sig) x = .ok r → r.ok = true →
-    ∃ d, decimalValue r.text = some d ∧ d.neg = false ∧ d.within sig 1 0 1 = true ∨ x < 0
+/-- … proved for every signed significand type (`int64_t`, and every wider signed rep) -/
+theorem descale_invariant_signed (S : IntTy) (hs : S.signed = true) (h8 : 8 ≤ S.bits) : DescaleInvariant S := by
+  intro input e R d hR2 hR hr hd
+  have hM : 0 < S.max.toNat := by have := max_ge_127 S hs h8; omega
+  by_cases h0 : input = 0
+  · subst h0
+    simp [descale] at hd
+    subst hd
+    have hz : (exactFrac (0 : Int).natAbs R e).1 = 0 := by unfold exactFrac; split <;> simp
+    refine ⟨by simp, ?_, ?_⟩
+    · apply within_intro
+      · rw [hz]; simp
+      · rw [hz]
+        have := exactFrac_den_pos (0 : Int).natAbs R e (by omega)
+        have hp := Nat.mul_pos this hM
+        simp only [Nat.zero_mul, Nat.zero_add, Nat.add_zero, Int.toNat_zero, Nat.pow_zero, Nat.one_mul,
+          Int.natAbs_zero, Nat.mul_one]
+        exact hp
+    · intro _
+      apply exactly_intro
+      rw [hz]; simp
+  · obtain ⟨d', hd', hsg, hne, h1, h2, h3, _, _⟩ := descale_value_invariant S hs h8 input e R hR2 hR hr h0
+    rw [hd] at hd'; cases hd'
+    refine ⟨by omega, ?_, ?_⟩
+    · apply within_intro _ _ _ _ _ _ _ h1
+      have hu : 0 < 10 ^ d.exp.toNat * (exactFrac input.natAbs R e).2 * S.max.toNat :=
+        Nat.mul_pos (Nat.mul_pos (Nat.pow_pos (by omega)) (exactFrac_den_pos _ _ _ (by omega))) hM
+      have hl : d.lossy * lossUnit R e ≤ d.lossy * 100 :=
+        Nat.mul_le_mul_left _ (by have := lossUnit_le R e hR; omega)
+      have := Nat.mul_le_mul_left ((exactFrac input.natAbs R e).1 * 10 ^ (-d.exp).toNat) hl
+      omega
+    · intro hl
+      exact exactly_intro _ _ _ _ _ (h3 hl)
+
+/-- full statement of the rescaling invariant.  Still open: the *unsigned* significand types (`uint64_t`,
+`unsigned __int128` reps), where `significand *= radix` wraps instead of being undefined and the headroom test
+`oob` is the only protection; covered by the correspondence sweep and the oracle only -/
+def FullDescaleInvariant : Prop := ∀ S : IntTy, 8 ≤ S.bits → DescaleInvariant S
+
+/-- **the layouts truncate** (target 2).  `_impl::to_chars_positive` on the digit string `ds` of `sig > 0` with
+decimal exponent `x`, any buffer and offset: when it succeeds, the text `t` written at `[first, first+|t|)` reads
+back, with the independent reader, as `m·10^e'` where either `x ≥ 0`, `m = sig·10^x`, `e' = 0` (all digits and the
+trailing zeros), or `m = ⌊sig / 10^dropped⌋` and `e' = x + dropped` with `dropped = |ds| − kept`, `0 < kept ≤ |ds|`
+(predicate `Kept`): the printed value is the significand truncated toward zero to the digits kept.  No digit is
+dropped when one of the two complete notations fits (`FullFits`). -/
+theorem fill_denotes_truncation (b : Buf) (first sig : Nat) (x : Int) (r : TCR) (h0 : 0 < sig) (hf : first ≤ b.len)
+    (hrun : toCharsPositive b first (natDigits 10 sig) x = .ok r) (hok : r.ok = true) :
+    ∃ (t : List Char) (m : Nat) (e' ns : Int), 0 < t.length ∧ first + t.length ≤ b.len ∧
+      r = ⟨some (first + t.length), true,
+        ⟨b.len, b.cells.take first ++ t.map some ++ b.cells.drop (first + t.length)⟩⟩ ∧
+      unsignedDecimal t = some (m, e') ∧ Kept sig x (natDigits 10 sig).length ns m e' ∧
+      (FullFits (infoOf b.len first (natDigits 10 sig).length x) → ns = (natDigits 10 sig).length) := by
+  rcases toCharsPositive_denotes b first sig h0 x hf with h | ⟨t, m, e', ns, h1, h2, h, hu, hK, hF⟩
+  · rw [h] at hrun; cases hrun; simp at hok
+  · rw [h] at hrun; cases hrun
+    exact ⟨t, m, e', ns, h1, h2, rfl, hu, hK, hF⟩
+
+example : (0 < 61875) ∧ (0 ≤ (Buf.fresh 6).len) ∧
+    toCharsPositive (Buf.fresh 6) 0 (natDigits 10 61875) (-4) =
+      .ok ⟨some 6, true, ⟨6, "6.1875".toList.map some⟩⟩ := by decide +kernel
+
+/-- … hence `0 ≤ sig·10^x − printed < 10^(exponent of the last printed digit)`, and `printed = sig·10^x` when
+nothing was cut — in the oracle's terms, with no allowance (replaces the former unproved `FullLayoutTruncates`) -/
+theorem layout_truncates (b : Buf) (first sig : Nat) (x : Int) (r : TCR) (h0 : 0 < sig) (hf : first ≤ b.len)
+    (hrun : toCharsPositive b first (natDigits 10 sig) x = .ok r) (hok : r.ok = true) :
+    ∃ (t : List Char) (d : Dec),
+      r = ⟨some (first + t.length), true,
+        ⟨b.len, b.cells.take first ++ t.map some ++ b.cells.drop (first + t.length)⟩⟩ ∧
+      decimalValue t = some d ∧ d.neg = false ∧
+      d.within (exactFrac sig 10 x).1 (exactFrac sig 10 x).2 0 1 = true ∧
+      (FullFits (infoOf b.len first (natDigits 10 sig).length x) →
+        d.exactly (exactFrac sig 10 x).1 (exactFrac sig 10 x).2 = true) := by
+  obtain ⟨t, m, e', ns, _, _, hr, hu, hK, hF⟩ := fill_denotes_truncation b first sig x r h0 hf hrun hok
+  have hself : sig * 10 ^ x.toNat * (exactFrac sig 10 x).2 = (exactFrac sig 10 x).1 * 10 ^ (-x).toNat := by
+    unfold exactFrac
+    by_cases hx : x ≥ 0
+    · have : (-x).toNat = 0 := by omega
+      simp [hx, this]
+    · have : x.toNat = 0 := by omega
+      simp [hx, this]
+  refine ⟨t, ⟨false, m, e'⟩, hr, decimalValue_pos t m e' hu, rfl, ?_, ?_⟩
+  · apply kept_within false sig x _ ns m e' hK _ _ 1 0 (by omega) (exactFrac_den_pos _ _ _ (by omega))
+    · omega
+    · omega
+  · intro hff
+    exact kept_exactly false sig x _ ns m e' hK (hF hff) _ _ hself
+
+/-- **the text of a non-zero `scaled_integer` denotes its value** (target 3 = 1 ∘ 2).  For every rep type whose
+significand type is signed (`int64_t` for every rep of at most 63 digits, or a wider signed rep), every exponent,
+radix 2…10, buffer length and non-zero value: when `cnl::to_chars` succeeds, the characters `[first, p)`, read by
+the independent reader `decimalValue`, are a decimal `d = ±m·10^x'` with
+* `d.neg ↔ rep < 0`;
+* `m·10^x' ≤ |rep|·radix^e` — never above the true magnitude;
+* `|rep|·radix^e − m·10^x' < 10^x' + |rep|·radix^e · lossy·lossUnit/max` — less than one unit of the last printed
+  digit below it, plus the significand precision allowance (`lossy` = lossy divisions of `descale`,
+  `loss_unit_figures`: `< lossy·2^-59` of the value for binary negative exponents on `int64_t`);
+* `m·10^x' = |rep|·radix^e` exactly when `descale` took no lossy division and a complete notation fits. -/
+theorem scaled_text_denotes (T : IntTy) (e : Int) (radix len : Nat) (rep : Int)
+    (hS : (sigTy T).signed = true) (hr : (sigTy T).InRange rep) (hR2 : 2 ≤ radix) (hR : radix ≤ 10)
+    (hrep : rep ≠ 0) (r : TCR) (hrun : scaledToChars T e radix len rep = .ok r) (hok : r.ok = true) :
+    ∃ dsc d, descale (sigTy T) rep e radix = .ok dsc ∧ decimalValue r.text = some d ∧
+      d.neg = decide (rep < 0) ∧
+      d.within (exactFrac rep.natAbs radix e).1 (exactFrac rep.natAbs radix e).2
+        (dsc.lossy * lossUnit radix e) (sigTy T).max.toNat = true ∧
+      (dsc.lossy = 0 →
+        FullFits (infoOf len (if rep < 0 then 1 else 0) (natDigits 10 dsc.sig.natAbs).length dsc.exp) →
+        d.exactly (exactFrac rep.natAbs radix e).1 (exactFrac rep.natAbs radix e).2 = true) :=
+  scaledToChars_denotes T e radix len rep hS hr hR2 hR hrep r hrun hok
+
+example : (sigTy i8).signed = true ∧ (sigTy i8).InRange (-99) ∧ (-99 : Int) ≠ 0 ∧
+    scaledToChars i8 (-4) 2 8 (-99) = .ok ⟨some 7, true, ⟨8, "-6.1875".toList.map some ++ [none]⟩⟩ := by
+  decide +kernel
+
+/-- **exact for short binary fractions**: `scaled_integer<Rep, power<e, 2>>` with `e < 0`, when the exact
+expansion's significand `|rep|·5^|e|` is at most `max/10` (at most 18 digits for `int64_t`): `descale` takes no lossy
+division — with `scaled_text_denotes`, the text is then exactly the value whenever a complete notation fits,
+and plain truncation otherwise -/
+theorem descale_lossless_binary (S : IntTy) (hs : S.signed = true) (h8 : 8 ≤ S.bits) (input e : Int)
+    (hr : S.InRange input) (h0 : input ≠ 0) (he : e < 0)
+    (hB : 10 * (input.natAbs * 5 ^ e.natAbs) ≤ S.max.toNat) (d : Desc)
+    (hd : descale S input e 2 = .ok d) : d.lossy = 0 :=
+  Charconv.descale_lossless_binary S hs h8 input e hr h0 he hB d hd
+
+example : i64.InRange (-99) ∧ 10 * ((-99 : Int).natAbs * 5 ^ (-4 : Int).natAbs) ≤ i64.max.toNat := by decide
+
+/-- … and for non-negative exponents when the value itself is at most `max/10`.  (Beyond that the claim is false:
+`lossy_short_expansion_witness`.) -/
+theorem descale_lossless_small (S : IntTy) (hs : S.signed = true) (h8 : 8 ≤ S.bits) (input e : Int) (R : Nat)
+    (hR1 : 1 ≤ R) (hR : R ≤ 10) (hr : S.InRange input) (h0 : input ≠ 0) (he : 0 ≤ e)
+    (hB : 10 * (input.natAbs * R ^ e.natAbs) ≤ S.max.toNat) (d : Desc)
+    (hd : descale S input e R = .ok d) : d.lossy = 0 :=
+  Charconv.descale_lossless_small S hs h8 input e R hR1 hR hr h0 he hB d hd
+
+example : i64.InRange 3 ∧ 10 * ((3 : Int).natAbs * 2 ^ (40 : Int).natAbs) ≤ i64.max.toNat := by decide
+
+/-- zero prints as `0`, which denotes zero -/
+theorem scaled_zero_denotes (T : IntTy) (e : Int) (radix len : Nat) (r : TCR)
+    (hrun : scaledToChars T e radix len 0 = .ok r) (hok : r.ok = true) :
+    decimalValue r.text = some ⟨false, 0, 0⟩ := by
+  by_cases hlen : len = 0
+  · subst hlen
+    simp [scaledToChars, scaledToCharsWith] at hrun
+    subst hrun; simp at hok
+  · have hpos : 0 < len := Nat.pos_of_ne_zero hlen
+    simp only [scaledToChars, scaledToCharsWith, hlen, if_false, if_true, Buf.write, Buf.fresh, hpos] at hrun
+    cases hrun
+    have : TCR.text ⟨some 1, true, ⟨len, (List.replicate len none).set 0 (some '0')⟩⟩ = ['0'] := by
+      cases len with
+      | zero => omega
+      | succ k => simp [TCR.text, List.replicate_succ]
+    rw [this]; decide
 
 end Cnl.C14
